@@ -53,25 +53,55 @@ fn sign_all(n: u8) -> Op {
 }
 
 /// A generated history = the start every deployment goes through (genesis epoch, first registrations, first epoch
-/// change; each step individually perturbable) followed by free operations.
+/// change; each step individually perturbable) followed by 2..3 epoch blocks. A block is what happens during one
+/// Cardano epoch: the signers register for the epoch after next (all / a subset / nobody, possibly with a new
+/// key) somewhere in the block, 3..7 freely generated operations, and the epoch change that ends it (sometimes
+/// several epochs at once, sometimes preceded by the operator's re-genesis).
 fn case_strategy() -> impl Strategy<Value = Case> {
     cfg_strategy().prop_flat_map(|cfg| {
         let n = cfg.n_signers;
         let full = (1u16 << n) - 1;
+        let register = move || {
+            prop_oneof![
+                10 => Just(Some(Op::Register { mask: full, keygen: 0, when: RegEpoch::Current })),
+                6 => (1u16..=full).prop_map(|mask| Some(Op::Register { mask, keygen: 0, when: RegEpoch::Current })),
+                3 => (1u16..=full, 1u8..=2).prop_map(|(mask, keygen)| Some(Op::Register { mask, keygen, when: RegEpoch::Current })),
+                1 => Just(None),
+            ]
+        };
         let prefix = (
             prop_oneof![4 => Just(Some(Op::Tick(1))), 1 => Just(None)],
-            prop_oneof![
-                5 => Just(Op::Register { mask: full, keygen: 0, when: RegEpoch::Current }),
-                3 => (1u16..=full).prop_map(|mask| Op::Register { mask, keygen: 0, when: RegEpoch::Current }),
-                1 => (1u16..=full).prop_map(|mask| Op::Register { mask, keygen: 1, when: RegEpoch::Current }),
-            ],
-            prop_oneof![6 => Just(Op::EpochUp(1)), 1 => Just(Op::EpochUp(2))],
+            register(),
+            prop_oneof![8 => Just(Op::EpochUp(1)), 1 => Just(Op::EpochUp(2))],
             prop_oneof![6 => Just(Op::Tick(3)), 1 => Just(Op::Tick(2))],
         );
-        (Just(cfg), prefix, prop::collection::vec(op_strategy_c14(n), 6..=31)).prop_map(|(cfg, (a, b, c, d), rest)| {
+        let block = (
+            prop_oneof![1 => Just(true), 7 => Just(false)],
+            register(),
+            any::<u16>(),
+            prop::collection::vec(op_strategy_c14(n), 3..=7),
+            prop_oneof![10 => Just(Op::EpochUp(1)), 2 => Just(Op::EpochUp(2)), 1 => Just(Op::EpochUp(3))],
+            prop_oneof![6 => Just(Op::Tick(3)), 1 => Just(Op::Tick(1))],
+        )
+            .prop_map(|(regenesis, reg, at, mut items, up, tick)| {
+                if let Some(r) = reg {
+                    let pos = vcore::pick_index(at, items.len() + 1);
+                    items.insert(pos, r);
+                }
+                if regenesis {
+                    items.insert(0, Op::ReGenesis);
+                }
+                items.push(up);
+                items.push(tick);
+                items
+            });
+        (Just(cfg), prefix, prop::collection::vec(block, 2..=3)).prop_map(|(cfg, (a, b, c, d), blocks)| {
             let mut ops: Vec<Op> = a.into_iter().collect();
-            ops.extend([b, c, d]);
-            ops.extend(rest);
+            ops.extend(b);
+            ops.extend([c, d]);
+            for b in blocks {
+                ops.extend(b);
+            }
             Case { cfg, ops }
         })
     })
@@ -119,6 +149,14 @@ fn scripted() -> Vec<Case> {
 }
 
 pub fn run_case(c: &Case) -> Report {
+    run_case_with(c, "")
+}
+
+fn run_scripted(c: &Case) -> Report {
+    run_case_with(c, "scripted/")
+}
+
+fn run_case_with(c: &Case, prefix: &str) -> Report {
     let rt = case_runtime();
     let rep = rt.block_on(async {
         let mut rep = Report::new();
@@ -183,6 +221,11 @@ pub fn run_case(c: &Case) -> Report {
             rep.violation(k, w);
         }
         run.shutdown().await;
+        if !prefix.is_empty() {
+            for l in rep.labels.iter_mut() {
+                *l = format!("{prefix}{l}");
+            }
+        }
         rep
     });
     rt.shutdown_background();
@@ -215,7 +258,7 @@ pub fn run(args: &Args) -> i32 {
         .shrink_iters(120);
     crate::model::warm_up(6);
     let t = check.tier;
-    check.enumerate("scripted-honest", scripted().into_iter(), false, run_case);
+    check.enumerate("scripted-honest", scripted().into_iter(), false, run_scripted);
     check.section("histories", case_strategy, t.pick(176, 6000), run_case);
     check.finish()
 }
